@@ -8,6 +8,7 @@ build = C library getopt, and the same sources linked with attgetopt.c) run on g
 scratch directories; the model is given the library's in-process verdict for the same parameter
 block and bytes and must predict exit status, stdout, stderr lines and the resulting files.
 The property oracle is evaluated on the executables' own observations."""
+import re
 import concurrent.futures, glob, json, os, random, subprocess, time
 import common
 from common import log
@@ -199,6 +200,25 @@ def build_scenarios(rng, tier, pairs):
                     om = rng.choice(['file', 'stdout', 'existing'])
                     g = rng.choice(['gnu', 'att'])
                     scs.append(U.make_scenario(rng, tool, g, doc, im, om, 0.0, f'size:{n}:{kind}:{im}/{om}'))
+    # 2b. inputs that carry NUL bytes (the tools must hand over the bytes they read, not a C string):
+    # UTF-16 transcodings of a valid document, a valid document followed by NUL + junk, junk with NULs
+    for tool in ('w2x', 'x2w'):
+        base = docs[tool]
+        nul_docs = [('nul-tail', base + b'\x00<<<junk'), ('nul-junk', bytes(rng.choice([0, 0, 60, 62, 65, 255]) for _ in range(1500))),
+                    ('nul-first', b'\x00' + base)]
+        if tool == 'x2w':
+            for big_pad in (0, 1200):
+                x = (U.pad_xml(base, len(base) + big_pad) or base) if big_pad else base
+                try:
+                    t = x.decode('utf-8')
+                    t = re.sub(r'^<\?xml[^>]*\?>', '', t)
+                    nul_docs.append((f'utf16:{big_pad}', ('<?xml version="1.0" encoding="UTF-16"?>' + t).encode('utf-16')))
+                except UnicodeDecodeError:
+                    pass
+        for kind, doc in nul_docs:
+            for im in ('file', 'stdin'):
+                om = rng.choice(['file', 'stdout'])
+                scs.append(U.make_scenario(rng, tool, 'gnu', doc, im, om, 0.0, f'nul:{kind}:{im}/{om}'))
     # 3. large results on a full device (fwrite itself comes back short) — the biggest corpus document
     big = max(pairs, key=lambda p: len(p[2]))
     for tool, doc in (('w2x', big[2]), ('x2w', U.pad_xml(big[1], 40000) or big[1])):
